@@ -802,7 +802,8 @@ def make_ds_rdataset(
 
     res = []
     for algorithm in _algorithms:
-        res.extend(dnskey_rdataset_to_cds_rdataset(rrname, rdataset, algorithm, origin))
+        for rdata in rdataset:
+            res.append(make_ds(rrname, rdata, algorithm, origin))
     return dns.rdataset.from_rdata_list(rdataset.ttl, res)
 
 
